@@ -188,6 +188,53 @@ def anyall(func):
     return changed
 
 
+# ---------------------------------------------------------------------------------------------- yield of a conditional
+def _yield_ifexp(stmts, func):
+    """x = yield (A if c else B)  ->  if c: x = yield A  else: x = yield B   (c is evaluated first either way)."""
+    out = []
+    changed = False
+    for s in stmts:
+        if isinstance(s, (ast.Assign, ast.Expr)) and isinstance(s.value, ast.Yield) and isinstance(s.value.value, ast.IfExp):
+            ie = s.value.value
+            a = copy.deepcopy(s)
+            a.value.value = ie.body
+            b = copy.deepcopy(s)
+            b.value.value = ie.orelse
+            new = ast.copy_location(ast.If(test=ie.test, body=[a], orelse=[b]), s)
+            ast.fix_missing_locations(new)
+            out.append(new)
+            changed = True
+            continue
+        out.append(s)
+    return out if changed else None
+
+
+# ---------------------------------------------------------------------------------------------- next(iter(E), D)
+def _next_default(stmts, func):
+    """x = next(iter(E), D)  ->  x = D; for x in E: break   (first item of E, or D when E is empty; D simple, x not in E)"""
+    out = []
+    changed = False
+    for s in stmts:
+        if isinstance(s, ast.Assign) and len(s.targets) == 1 and isinstance(s.targets[0], ast.Name) \
+                and isinstance(s.value, ast.Call) and isinstance(s.value.func, ast.Name) and s.value.func.id == 'next' \
+                and len(s.value.args) == 2 and not s.value.keywords and _simple(s.value.args[1]):
+            it = s.value.args[0]
+            if isinstance(it, ast.Call) and isinstance(it.func, ast.Name) and it.func.id == 'iter' and len(it.args) == 1:
+                it = it.args[0]
+                x = s.targets[0].id
+                if isinstance(it, ast.Call) and not any(isinstance(n, ast.Name) and n.id == x for n in ast.walk(it)):
+                    a = ast.copy_location(ast.Assign(targets=[ast.Name(id=x, ctx=ast.Store())], value=s.value.args[1]), s)
+                    loop = ast.copy_location(ast.For(target=ast.Name(id=x, ctx=ast.Store()), iter=it,
+                                                     body=[ast.copy_location(ast.Break(), s)], orelse=[]), s)
+                    ast.fix_missing_locations(a)
+                    ast.fix_missing_locations(loop)
+                    out += [a, loop]
+                    changed = True
+                    continue
+        out.append(s)
+    return out if changed else None
+
+
 # ---------------------------------------------------------------------------------------------- walrus
 def _dewalrus(stmts, func):
     """if (x := E): ...  ->  x = E; if x: ...   (also `if not (x := E)`, `if (x := E) is None`, and the same at the top
@@ -199,6 +246,8 @@ def _dewalrus(stmts, func):
         if isinstance(s, ast.If):
             slot = ('test', s.test)
         elif isinstance(s, (ast.Assign, ast.Return, ast.Expr)) and s.value is not None:
+            slot = ('value', s.value)
+        elif isinstance(s, ast.AugAssign) and isinstance(s.target, ast.Name):
             slot = ('value', s.value)
         if slot is not None:
             e = slot[1]
@@ -212,6 +261,8 @@ def _dewalrus(stmts, func):
                 if isinstance(cur, ast.UnaryOp):
                     cur = cur.operand
                 elif isinstance(cur, ast.Compare):
+                    cur = cur.left
+                elif isinstance(cur, ast.BinOp) and not isinstance(cur.left, ast.Name):
                     cur = cur.left
                 elif isinstance(cur, ast.BoolOp):
                     cur = cur.values[0]
@@ -1430,6 +1481,8 @@ def simple_passes(modules, log):
                 log.append('record of values replaced by its fields in %s' % q)
                 changed = True
             for name, f in (('yield from modelled as a loop', _yield_from),
+                            ('next(iter(E), D) written as a loop', _next_default),
+                            ('yield of a conditional value split', _yield_ifexp),
                             ('assignment expression hoisted', _dewalrus),
                             ('constant loop unrolled', lambda b, f_, cls=cls: ur.block(b, f_, cls)),
                             ('dispatch table turned into an if-chain', lambda b, f_, cls=cls: dd.block(b, f_, cls)),
